@@ -61,14 +61,15 @@ impl SvgElement {
 //@ fragment-name carry_over
 //@ fragment-from <<<        // if referenced by an ElRef::Id (rather than Prev), will have an `id`>>>
 //@ fragment-to <<<            instance_element.add_class(&ref_id);\n        }>>>
-//@ fragment-head <<<fn carry_over(reuse_element: &SvgElement, instance_element: &mut SvgElement, context: &mut TransformerContext, elref: &ElRef) {>>>
+//@ fragment-head <<<fn carry_over(reuse_element: &SvgElement, instance_element: &mut SvgElement, context: &mut TransformerContext, elref: ElRef) {>>>
 //@ fragment-tail <<<}>>>
 //@ ensures
 //@ - map_get(final(instance_element).attrs@, "id"@) == map_get(reuse_element.attrs@, "id"@)     @@C18.carry.id
 //@ - reuse_element.attrs@.dom().contains("style"@) ==> map_get(final(instance_element).attrs@, "style"@) == map_get(reuse_element.attrs@, "style"@)     @@C18.carry.style
 //@ - !reuse_element.attrs@.dom().contains("style"@) ==> map_get(final(instance_element).attrs@, "style"@) == map_get(old(instance_element).attrs@, "style"@)
 //@ - final(instance_element).classes@ == old(instance_element).classes@.union(reuse_element.classes@).union(
-//@       if old(instance_element).attrs@.dom().contains("id"@) { set![old(instance_element).attrs@["id"@]] } else { Set::<Seq<char>>::empty() })     @@C18.carry.classes
+//@       match elref { ElRef::Id(id) => set![id@],     // the id the target was referred to by - not its `id` attribute as re-evaluated with this reuse's variables
+//@                      ElRef::Prev => if old(instance_element).attrs@.dom().contains("id"@) { set![old(instance_element).attrs@["id"@]] } else { Set::<Seq<char>>::empty() } })     @@C18.carry.classes @@C18.carry.target_id_as_registered
 //@ - forall|k: Seq<char>| k != "id"@ && k != "style"@ ==> map_get(final(instance_element).attrs@, k) == map_get(old(instance_element).attrs@, k)     @@C18.carry.frame
 //@ - final(instance_element).name == old(instance_element).name
 //@end
